@@ -298,6 +298,15 @@ impl Sys {
                 _ => None,
             })
             .collect();
+        self.m.observed_pubrels = self
+            .w
+            .obs_since(self.mark)
+            .iter()
+            .filter_map(|o| match o {
+                Ob::Wire(CPacket::Pubrel(a)) => Some(a.pid),
+                _ => None,
+            })
+            .collect();
         self.m.settle();
         // the context task ends (and drops the Context) right after run() returned
         if self.auto_exit && self.m.ctx == CtxSt::Returned {
